@@ -9,6 +9,7 @@ import (
 	"os"
 	"os/exec"
 	"sort"
+	"strconv"
 	"strings"
 	"time"
 
@@ -80,6 +81,7 @@ type ViolationRec struct {
 	FromSeed  bool           `json:"from_seed,omitempty"`
 	RunFrom   *int           `json:"run_from,omitempty"`  // range replay: runs run_from..run of the seed in one process (state carried between runs)
 	WorkerFrom int           `json:"worker_from"`
+	Env       map[string]string `json:"env,omitempty"` // environment swarm of the worker that found it (part of the configuration)
 	ShrinkLog string         `json:"shrink_log,omitempty"`
 }
 
@@ -132,6 +134,13 @@ func main() {
 	}
 	engines["async"] = runAsync
 	registerEngines()
+	// environment swarm: a busy process (parked goroutines); applies to run, replay and shrink alike
+	if n, _ := strconv.Atoi(os.Getenv("VERIF_IDLE_GOROUTINES")); n > 0 {
+		park := make(chan struct{})
+		for i := 0; i < n; i++ {
+			go func() { <-park }()
+		}
+	}
 	switch os.Args[1] {
 	case "run":
 		cmdRun(os.Args[2:])
@@ -338,7 +347,7 @@ func cmdRun(args []string) {
 			}
 			sigs[sig] = true
 			// re-run with full tracing to produce a readable record
-			rec := ViolationRec{Property: *prop, Engine: opt.Engine, Tier: *tier, VerifSeed: *seed, Run: i, WorkerFrom: *from,
+			rec := ViolationRec{Property: *prop, Engine: opt.Engine, Tier: *tier, VerifSeed: *seed, Run: i, WorkerFrom: *from, Env: swarmEnv(),
 				Draws: ch.Values(), Violation: f, Signature: sig, Config: res.Config, Trace: res.Trace, Faults: res.Faults}
 			w.Violations = append(w.Violations, rec)
 		}
@@ -615,4 +624,15 @@ func writeRec(path string, rec ViolationRec) {
 		fmt.Fprintln(os.Stderr, err)
 		os.Exit(2)
 	}
+}
+
+// swarmEnv records the environment dimensions the orchestrator varies per worker.
+func swarmEnv() map[string]string {
+	out := map[string]string{}
+	for _, k := range []string{"GOMAXPROCS", "LC_ALL", "LC_CTYPE", "LANG", "TZ", "VERIF_IDLE_GOROUTINES", "VERIF_REALDISK_ONLY"} {
+		if v, ok := os.LookupEnv(k); ok {
+			out[k] = v
+		}
+	}
+	return out
 }
